@@ -462,6 +462,48 @@ def run(ctx):
     ctx.floor(R6, 8)
     ctx.trust('RFC 3629 table embedded in rules/C14.py; interval/stride arithmetic of vlib/absint.py')
 
+    # ---------------- R7 form text widgets
+    R7 = ctx.rule('C14.R7', 'form text widgets: the loaded value is validated as a whole by encoding::valid, invalid text marks the widget invalid, and both length limits are compared with the code-point count that call produced')
+    PF = model.Program(build.extract([REPO + '/src/form.cpp'], include_re='^/repo/src/form\\.cpp'))
+    ctx.units.append('src/form.cpp')
+    ld, vd = PF.fn('cppcms::widgets::base_text::load'), PF.fn('cppcms::widgets::base_text::validate')
+    CP, VAL = 'base_text::code_points_', 'base_text::value_'
+
+    def fld(f, node, suffix):
+        return any(model.strip_targs(r).endswith(suffix) for r in f.subtree_refs(node))
+    vc = [i for i in ld.calls() if ld.bcallee(i) == 'cppcms::encoding::valid']
+    ctx.check(len(vc) >= 1, R7, 'load:validates', 'base_text::load does not call encoding::valid', ld.where)
+    for k, i in enumerate(vc):
+        a = ld.args(i)
+        dfld = lambda node: any(model.strip_targs(r).endswith(VAL) for r in q.deep_refs(ld, node))      # through `char const *begin = value_.data();`
+        whole = len(a) >= 4 and dfld(a[1]) and dfld(a[2]) and any(q.short_of(ld.bcallee(j) or '') in ('data', 'c_str', 'begin') for j in q.expr_calls_deep(ld, a[1])) and \
+            any(q.short_of(ld.bcallee(j) or '') in ('size', 'length', 'end') for j in q.expr_calls_deep(ld, a[2])) and \
+            not any(ld.N(j)['k'] in ('BinaryOperator', 'UnaryOperator', 'CompoundAssignOperator') and ld.N(j).get('op') in ('+', '-', '++', '--') for j in ld.walk(a[1]))
+        ctx.check(whole, R7, 'load:valid#%d:whole-value' % k, 'the validated range is not the whole loaded value', ld.loc(i))
+        ctx.check(len(a) >= 4 and fld(ld, a[3], CP), R7, 'load:valid#%d:counts-into-code_points_' % k, 'the character count of the validator is not stored in code_points_', ld.loc(i))
+        bad = q.call_gate(ld, lambda j, i=i: j == i, False)
+        inv = [j for j in ld.calls() if q.short_of(ld.bcallee(j) or '') == 'valid' and ld.bcallee(j) != 'cppcms::encoding::valid' and len(ld.args(j)) == 1 and ld.const_value(ld.args(j)[0]) == 0]
+        reach = set()
+        for (b, s_, lab, tag) in [e for e in bad if len(e) == 4]:
+            reach |= set(ld.reachable_blocks(start=s_, cut_blocks=[ld.point_of(j)[0] for j in inv]))
+        ctx.check(bool(bad) and bool(inv) and ld.exit not in reach, R7, 'load:valid#%d:invalid-text-marks-widget-invalid' % k, 'text that failed validation leaves the widget valid', ld.loc(i))
+        # the value validated is the one stored: no assignment to value_ after the validation
+        later = [w for w in q.field_writes(ld, VAL) if q.reaches(ld, i, w)]
+        ctx.check(not later, R7, 'load:valid#%d:value-not-changed-afterwards' % k, 'value_ is modified after it was validated', ld.loc(later[0]) if later else ld.where)
+    nlim = 0
+    for i in vd.all_nodes():
+        n = vd.N(i)
+        if n['k'] != 'BinaryOperator' or n.get('op') not in ('<', '>', '<=', '>='):
+            continue
+        l, r = n['ch']
+        for lim, other in ((l, r), (r, l)):
+            if (fld(vd, lim, 'base_text::low_') or fld(vd, lim, 'base_text::high_')) and vd.const_value(other) is None:
+                nlim += 1
+                ok = fld(vd, other, CP) and not fld(vd, other, VAL)
+                ctx.check(ok, R7, 'validate:limit#%d:compared-with-code-points' % nlim, 'a length limit is compared with something other than the code-point count (bytes of a multi-byte value are not characters)', vd.loc(i))
+    ctx.check(nlim >= 2, R7, 'validate:both-limits-found', 'expected the lower and the upper limit comparison in base_text::validate', vd.where)
+    ctx.floor(R7, 7)
+
 
 def _ranges(vs):
     out, start, prev = [], None, None
